@@ -36,6 +36,10 @@ CHECKS = {
    text='One obligation per (mnemonic, operand signature, output, case): 8 general registers, segment registers, CF PF AF ZF SF OF DF, memory as a whole and the control-flow outcome, for 135 integer-core mnemonics over ~37k decoder instances (register classes, addressing structures, 8/16/32 bit, 66/64 prefixes). Each is a z3 validity query over a fully symbolic state (registers, flags, memory array). Architecturally undefined flags generate no obligation; "count = 0 leaves flags unchanged" does. 868 obligations fail on the pinned tree and are listed as known findings (AF formula, shift/rotate flags, 16-bit stack forms, ...); everything else is proved.',
    note='Trusted: z3; liftvc/den.py (S-ir); specs/x86sem.py (IA-32 spec written from the SDM); flat es/cs/ss/ds, no faults (#DE excluded), single step of string instructions; register numbers sampled by class, immediates from enumeration paddings (uniformity of the lifter in immediates is assumed, not proved).',
    ref='5 C04'),
+ 'C08': dict(cat='other', tech='read/write sets read off the real lifted assignments are checked against non-interference of a hand-written IA-32 spec: for every location missing from a set, z3 proves for ALL states that the spec does not depend on / does not modify it; SIMD/x87 by an architectural operand table',
+   text='Integer core: per decoder instance (as C04) and per architectural location (8 registers, 7 flags, 6 segment registers) one z3 query; loaded/stored bytes must lie inside reported memory cells for all states. x87/MMX/SSE: explicit operands, address registers and the implicit operands of maskmov/blendv/comis must be reported. 1283 obligations fail on the pinned tree (undefined flags not in the write set, shift flags pass-through, stub semantics of fxsave & co.) and are known findings.',
+   note='Trusted: z3; specs/x86sem.py; the SIMD exception list. Flags the architecture leaves undefined count as modified. prefetch*/clflush operands are hints and not required.',
+   ref='5 C08'),
 }
 NOT_YET = {}
 ALL = ['C%02d' % i for i in range(1, 20)]
@@ -63,7 +67,7 @@ def main():
         'hooks': {'guard': 'LRGH_MIASMX_VERIF', 'enable': 'unused: contracts are sidecar files under /verif/contracts, /repo is not instrumented',
                   'baseline_off_cmd': BASE_OFF, 'source_commits': [], 'add_only': True},
         'engines': [
-            {'name': 'liftvc', 'path': 'liftvc/', 'serves_properties': ['C04', 'C05', 'C06', 'C15', 'C16', 'C11'], 'kind_free_text': 'Engine B: IR denotation den() as z3 bit-vectors; equivalence / refinement queries over all machine states'},
+            {'name': 'liftvc', 'path': 'liftvc/', 'serves_properties': ['C04', 'C08', 'C05', 'C06', 'C15', 'C16', 'C11'], 'kind_free_text': 'Engine B: IR denotation den() as z3 bit-vectors; equivalence / refinement queries over all machine states'},
             {'name': 'pyvc', 'path': 'pyvc/', 'serves_properties': ['C14', 'C05'], 'kind_free_text': 'Engine A: AST -> verification conditions (symbolic execution with callee contracts), z3'},
         ],
         'checks': checks,
